@@ -75,7 +75,7 @@ def h1(x): return x + 1
 def h2(a, b): return a * 2 - b
 def ident(x): return x
 def h3(x): return h1(x) * 2 + h2(x, 1)
-def hkw(x): return h2(b=x, a=G1)
+def hkw(x): return h2(b=x, a=G2)
 def hkw2(x, y): return ident(x) + hkw(y) + h2(b=1, a=y)
 def hsel(s, k): return s.Where(lambda v: v > k).Count()
 def hshadow(x): return h1((lambda x: x + 100)(x)) + x
